@@ -1,5 +1,7 @@
 """C17 — The WTML and the returned data-set description match the files on disk."""
 
+import builtins
+import errno
 import os
 import re
 import warnings
@@ -374,12 +376,24 @@ def xml_attrs(el):
     return out
 
 
-def compare_builder_with_wtml(bld, out, what):
+def compare_builder_with_wtml(bld, out, what, add_place=True):
     if bld is None:
         raise Violation("returned-description", f"{what}: no Builder was returned")
     with toasty_call("returned-description", what):
-        got = xml_attrs(bld.create_wtml_folder(add_place_for_toast=True).to_xml())
+        got = xml_attrs(bld.create_wtml_folder(add_place_for_toast=add_place).to_xml())
+        # the image-set description itself, not only what a re-serialisation of the builder picks up
+        direct = {k: v for k, v in xml_attrs(bld.imgset.to_xml()).items() if k.startswith("ImageSet.")}
     disk = xml_attrs(ET.parse(os.path.join(out, "index_rel.wtml")).getroot())
+    for key in ("ImageSet.TileLevels", "ImageSet.Url", "ImageSet.FileType", "ImageSet.Projection", "ImageSet.BaseDegreesPerTile", "ImageSet.BaseTileLevel"):
+        a, b = direct.get(key), disk.get(key)
+        if a == b:
+            continue
+        try:
+            if a is not None and b is not None and abs(float(a) - float(b)) <= 1e-9 * max(abs(float(a)), abs(float(b))):
+                continue
+        except ValueError:
+            pass
+        raise Violation("returned-description", f"{what}: the returned Builder's image set has {key}={a!r}, index_rel.wtml on disk has {b!r}")
     for key in sorted(set(got) | set(disk)):
         a, b = got.get(key), disk.get(key)
         if a == b:
@@ -453,6 +467,9 @@ def exec_history(case):
     os.environ["SLURM_NPROCS"] = "1"
     reuse = False
     changed_input = False
+    no_place = bool(case.get("no_place"))
+    faults_reported = faults_survived = 0
+    orig_open = builtins.open
     try:
         with fresh_dir("c17c-") as d:
             fpath = os.path.join(d, "img.fits")
@@ -478,18 +495,44 @@ def exec_history(case):
                         raise Interrupted("the run is interrupted in the cascade")
 
                     tbuilder.Builder.cascade = boom
+                read_fault = step == "repeat-readfault"
+                fired = []
+                if read_fault:
+                    # one transient I/O error while the existing index is opened for reading: the call may fail, but if it
+                    # returns, what it returns must still describe the directory
+                    def faulty_open(file, mode="r", *a_, **k_):
+                        if not fired and isinstance(file, (str, os.PathLike)) and str(file).endswith("index_rel.wtml") and "w" not in mode and "a" not in mode and "+" not in mode:
+                            fired.append(1)
+                            raise OSError(errno.EIO, "injected transient I/O error", str(file))
+                        return orig_open(file, mode, *a_, **k_)
+
+                    builtins.open = faulty_open
                 try:
                     with warnings.catch_warnings():
                         warnings.simplefilter("ignore")
-                        odir, bld = toasty.tile_fits([fpath], out_dir=out, override=override, parallel=par, **kw)
+                        if no_place:
+                            from toasty import collection, fits_tiler
+
+                            coll = collection.load([fpath], hdu_index=None, wcs_key=" ", blankval=None)
+                            tiler = fits_tiler.FitsTiler(coll, out_dir=out, tiling_method=kw["tiling_method"], add_place_for_toast=False)
+                            tiler.tile(parallel=par, override=override, **{k_: v_ for k_, v_ in kw.items() if k_ != "tiling_method"})
+                            odir, bld = tiler.out_dir, tiler.builder
+                        else:
+                            odir, bld = toasty.tile_fits([fpath], out_dir=out, override=override, parallel=par, **kw)
                 except Interrupted:
                     content = (mode_i, (w, h))
                     complete = False
                     continue
                 except Exception as e:  # noqa
+                    if read_fault and fired:
+                        faults_reported += 1
+                        continue  # the error reached the caller; the directory is untouched
                     raise Violation("workflow", f"{what} raised {type(e).__name__}: {e}")
                 finally:
                     tbuilder.Builder.cascade = orig_cascade
+                    builtins.open = orig_open
+                if read_fault and fired:
+                    faults_survived += 1
                 if will_tile:
                     if content is not None and content[1] != (w, h):
                         changed_input = True
@@ -499,7 +542,7 @@ def exec_history(case):
                     reuse = True
                 if not os.path.isfile(os.path.join(odir, "index_rel.wtml")):
                     raise Violation("wtml", f"{what}: no index_rel.wtml in {odir}")
-                compare_builder_with_wtml(bld, odir, what)
+                compare_builder_with_wtml(bld, odir, what, add_place=not no_place)
                 # the directory tree must be exactly what the WTML describes (no layers left over from earlier runs)
                 cm, (cw, ch) = content
                 if cm == "tan":
@@ -522,6 +565,12 @@ def exec_history(case):
         cls.append("input-changed-between-calls")
     if any(s_.startswith("interrupted") for s_ in case["steps"]):
         cls.append("interrupted-run")
+    if no_place:
+        cls.append("FitsTiler-without-place")
+    if faults_reported:
+        cls.append("read-fault-reported")
+    if faults_survived:
+        cls.append("read-fault-survived")
     return Outcome(classes=cls, nontrivial=reuse or changed_input, count=len(case["steps"]))
 
 
@@ -536,7 +585,7 @@ def strat_history(draw, tier):
             # what an interrupted run leaves behind can only be overridden
             steps.append(draw(st.sampled_from(["override", "override", "interrupted-override"])))
         else:
-            steps.append(draw(st.sampled_from(["repeat", "repeat", "override", "override", "parallel2", "interrupted-override"])))
+            steps.append(draw(st.sampled_from(["repeat", "repeat", "override", "override", "parallel2", "interrupted-override", "repeat-readfault"])))
     if steps[-1].startswith("interrupted"):
         steps.append("override")
     if mode == "tan":
@@ -559,7 +608,8 @@ def strat_history(draw, tier):
     explicit = draw(st.booleans())
     if not explicit:
         modes = [mode] * len(steps)
-    return {"mode": mode, "modes": modes, "steps": steps, "sizes": sizes, "wcs": spec, "size": sizes[0], "start": draw(st.integers(1, 2)), "explicit_out": explicit}
+    return {"mode": mode, "modes": modes, "steps": steps, "sizes": sizes, "wcs": spec, "size": sizes[0], "start": draw(st.integers(1, 2)), "explicit_out": explicit,
+            "no_place": draw(st.integers(0, 2)) == 0}
 
 
 PARTS = [
